@@ -45,7 +45,10 @@ class SyntaxUtils:
         """
         name_node = node.name
         while not isinstance(name_node, pr.ID):
-            name_node = name_node.name
+            inner = getattr(name_node, 'name', None)
+            if inner is None or isinstance(inner, str):
+                return pr.to_c(name_node, True)  # (*p)[i], (p + 1)[i], …
+            name_node = inner
         return name_node.name
 
     @staticmethod
